@@ -9,15 +9,20 @@ CONSTANTS
   FullOrder = TRUE
   Points <- Pts1
   Feeds <- NoFeeds
-  PhaseMaps <- Ph1
-  ReKVals <- ReK
+  PhaseMaps <- Ph2
+  ReKVals <- ReK1
   MaxHist = 2
+  NameMap <- NmId
+  PForms <- PfMa
+  Containers <- CtList
+  OvKVals <- Ov3
 INVARIANT PolyAgreesWithFold
 INVARIANT PermutationInvariant
 INVARIANT InactiveNotInExponent
 INVARIANT UntouchedGetNothing
 INVARIANT FeedExact
 INVARIANT CurrentConstantRules
+INVARIANT StoichDecomposes
 INVARIANT NetCountsInactive
 INVARIANT PointSeparates
 INVARIANT PolysNormal
